@@ -51,22 +51,29 @@ ConvClass(v) == CASE v = "inf" -> "OverflowError" [] v = "list" -> "TypeError" [
 
 \* ------------------------------------------------------------------ tables: exception kinds
 \* Code*: exceptions carrying a `code` attribute that is no exit status: a method, None, a string, a float, an integer
-\* out of range.  TagFile: raised by code compiled under the file name "</error>".  TagCloseOpen / LibraryCloseOpen: the message closes a tag it did not open and leaves another one open.
+\* out of range.  NotPython / Undecodable: raised by code compiled under the name of an existing file that is a template /
+\* binary.  Sol*: the exception brings a crashtest solution (plain; description None; title None).  LongContext: the last
+\* of 1500 exceptions linked through __context__; CircularContext: its context chain is a circle.  TagFile: raised by code compiled under the file name "</error>".  TagCloseOpen / LibraryCloseOpen: the message closes a tag it did not open and leaves another one open.
 CodeKinds == {"WithCode", "CodeMethod", "CodeNone", "CodeString", "CodeFloat", "CodeBig"}
 Kinds == {"Foreign", "Library", "KeyboardInterrupt", "Chained", "TagOpen", "TagClose", "TagUnbalanced", "TagCloseOpen",
           "MultiLine", "NonAscii", "Backslash", "NoSource", "StrFails", "LibraryTagged", "LibraryBackslash",
-          "LibraryCloseOpen", "TagFile"} \cup CodeKinds
+          "LibraryCloseOpen", "TagFile", "NotPython", "Undecodable", "SolPlain", "SolNoDesc", "SolNoTitle",
+          "LongContext", "CircularContext"} \cup CodeKinds
 Scopes == {"top", "indent", "increment", "output"}
 IsInterrupt(k) == k = "KeyboardInterrupt"
 IsLibrary(k) == k \in {"Library", "LibraryTagged", "LibraryBackslash", "LibraryCloseOpen"}          \* CliKitException subclasses: simple report
 ClassOf(k) == CASE k = "KeyboardInterrupt" -> "KeyboardInterrupt" [] IsLibrary(k) -> "GenLibraryError"
                 [] k \in CodeKinds -> "WithCodeError" [] k = "StrFails" -> "StrFailsError"
-                [] k \in {"NoSource", "TagFile"} -> "ValueError" [] OTHER -> "RuntimeError"
+                [] k \in {"NoSource", "TagFile", "NotPython", "Undecodable"} -> "ValueError"
+                [] k \in {"SolPlain", "SolNoDesc", "SolNoTitle"} -> "SolutionError" [] OTHER -> "RuntimeError"
 
 \* ------------------------------------------------------------------ tables: command lines
 \* alpha <a> [--flag]   |   beta [--num N]  with sub-command  beta gamma <c>  (inherits --num)
 \* "empty": no token at all - the plain application's default command `delta` runs
-Lines == {"alpha_x", "alpha_x_flag", "beta", "beta_gamma_y", "beta_gamma_y_num", "alpha_missing", "nosuch", "empty"}
+\* alpha_beta / alpha_help / gamma_alpha: the argument's VALUE spells the name of another command (a sibling, the built-in
+\* help command, the parent's sibling) - it is a value all the same
+Lines == {"alpha_x", "alpha_x_flag", "beta", "beta_gamma_y", "beta_gamma_y_num", "alpha_missing", "nosuch", "empty",
+          "alpha_beta", "alpha_help", "gamma_alpha"}
 Pair(n, v) == <<n, v>>
 LineInfo(l) ==
   CASE l = "alpha_x"          -> [ok |-> TRUE, cmd |-> "alpha", args |-> <<Pair("a", "x")>>, opts |-> <<Pair("flag", "False")>>]
@@ -74,6 +81,9 @@ LineInfo(l) ==
     [] l = "beta"             -> [ok |-> TRUE, cmd |-> "beta", args |-> <<>>, opts |-> <<Pair("num", "None")>>]
     [] l = "beta_gamma_y"     -> [ok |-> TRUE, cmd |-> "beta gamma", args |-> <<Pair("c", "y")>>, opts |-> <<Pair("num", "None")>>]
     [] l = "beta_gamma_y_num" -> [ok |-> TRUE, cmd |-> "beta gamma", args |-> <<Pair("c", "y")>>, opts |-> <<Pair("num", "7")>>]
+    [] l = "alpha_beta"       -> [ok |-> TRUE, cmd |-> "alpha", args |-> <<Pair("a", "beta")>>, opts |-> <<Pair("flag", "False")>>]
+    [] l = "alpha_help"       -> [ok |-> TRUE, cmd |-> "alpha", args |-> <<Pair("a", "help")>>, opts |-> <<Pair("flag", "False")>>]
+    [] l = "gamma_alpha"      -> [ok |-> TRUE, cmd |-> "beta gamma", args |-> <<Pair("c", "alpha")>>, opts |-> <<Pair("num", "None")>>]
     [] l = "empty"            -> [ok |-> TRUE, cmd |-> "delta", args |-> <<>>, opts |-> <<>>]
     [] OTHER                  -> [ok |-> FALSE, cmd |-> "", args |-> <<>>, opts |-> <<>>]    \* required argument missing / unknown command
 LineOK(env) == LineInfo(env.line).ok /\ ~(env.line \in {"nosuch", "empty"} /\ env.app = "default")   \* (never combined: the default app has a default command)
